@@ -304,8 +304,18 @@ pub fn drive_c18_targeted(t: &Tier, sink: &mut Sink, stats: &mut Stats) {
                     vec![Step::new("push").a(Args { bit: Some(0), ..Default::default() }), Step::new("pop"), Step::new("shrink_to_fit"),
                          Step::new("reserve").a(Args::n(extra)), Step::new("shrink_to_fit")],
                 ];
-                for recipe in recipes.iter() {
-                    let mut x = AnyBv::fresh(kind, &start);
+                // the subject starts fresh, or in a storage state left by some history (heap mode with
+                // tight or spare storage for the auto type)
+                let preps: &[Prep] = if kind == Kind::A { &[Prep::Fresh, Prep::Heap, Prep::Spare, Prep::Shrunk, Prep::Conv(Kind::D), Prep::Masked] } else { &[Prep::Fresh, Prep::Shrunk, Prep::Pushed, Prep::Masked] };
+                for (ri, recipe) in recipes.iter().enumerate() {
+                  for (pi, prep) in preps.iter().copied().enumerate() {
+                    if t.quick && pi > 1 && (pi + ri + li + ei) % 2 == 0 {
+                        continue;
+                    }
+                    let (mut x, okp) = crate::prep::make(kind, &start, prep);
+                    if !okp && prep != Prep::Fresh {
+                        continue;
+                    }
                     let mut evs = Vec::new();
                     let mut nb = 1u8;
                     for st in recipe {
@@ -314,6 +324,9 @@ pub fn drive_c18_targeted(t: &Tier, sink: &mut Sink, stats: &mut Stats) {
                         let post = observe(&x);
                         let mut ev = base_event(st, nb, "cap", t.dbg, &x, &pre, yd, &post, py, &o);
                         ev["pr"] = json!(probes(&x, &o, &results));
+                        if nb == 1 {
+                            ev["x"]["p"] = json!(prep.name());
+                        }
                         evs.push(ev);
                         stats.execs += 1;
                         nb = 0;
@@ -329,6 +342,7 @@ pub fn drive_c18_targeted(t: &Tier, sink: &mut Sink, stats: &mut Stats) {
                     stats.execs += 1;
                     stats.histories += 1;
                     sink.emit(evs);
+                  }
                 }
             }
         }
@@ -563,7 +577,16 @@ pub fn drive_c10(t: &Tier, sink: &mut Sink, stats: &mut Stats) {
             // the same value at several lengths, preparations and storage modes
             let mut pads: Vec<usize> = vec![0, 1, 2, 3, 7, 8, 9, 60, 64, 65, 70, 128, 130];
             pads.retain(|p| v.len() + p <= cap);
-            let pads = if t.quick { sample_vec(&mut rng, &pads, 5) } else { pads };
+            // always: the exact length, one more bit, one more storage word; a sample of the rest
+            let pads = if t.quick {
+                let mut ps: Vec<usize> = pads.iter().copied().filter(|p| [0, 1, 64].contains(p)).collect();
+                ps.extend(sample_vec(&mut rng, &pads, 3));
+                ps.sort();
+                ps.dedup();
+                ps
+            } else {
+                pads
+            };
             for pad in pads {
                 let mut b = v.clone();
                 b.extend(std::iter::repeat(0).take(pad));
@@ -572,7 +595,7 @@ pub fn drive_c10(t: &Tier, sink: &mut Sink, stats: &mut Stats) {
                     Kind::D => &[Prep::Fresh, Prep::Spare, Prep::Summed, Prep::Shrunk, Prep::Reserved],
                     _ => &[Prep::Fresh, Prep::Summed, Prep::Shrunk, Prep::Pushed],
                 };
-                for prep in preps.iter().copied().take(if t.quick { 3 } else { 5 }) {
+                for prep in preps.iter().copied() {
                     let (x, ok) = make(kind, &b, prep);
                     let pre = observe(&x);
                     let mut xc = x.clone();
@@ -741,6 +764,15 @@ pub fn drive_c19(t: &Tier, m: &mut Matrix, sink: &mut Sink) {
                 let nb = (n + 7) / 8;
                 sink.emit(m.run(&one(Case::new("read", vec![]).a(Args { n: Some(n as u128), e: Some(e), bytes: Some(vec![0xFF; nb + 1]), ..Default::default() }))));
             }
+        }
+        // absurd lengths: any arithmetic on the length before the capacity test overflows
+        for n in [usize::MAX, usize::MAX - 1, usize::MAX - 6, usize::MAX - 7, usize::MAX - 8, usize::MAX / 2 + 1, usize::MAX / 8 + 1, (1usize << 61) + 1, 1usize << 32] {
+            for e in ['L', 'B'] {
+                sink.emit(m.run(&one(Case::new("read", vec![]).a(Args { n: Some(n as u128), e: Some(e), bytes: Some(vec![0xFF; 5]), ..Default::default() }))));
+            }
+            sink.emit(m.run(&one(Case::new("zeros", vec![]).a(Args::n(n)))));
+            sink.emit(m.run(&one(Case::new("ones", vec![]).a(Args::n(n)))));
+            sink.emit(m.run(&one(Case::new("repeat", vec![]).a(Args { n: Some(n as u128), bit: Some(0), ..Default::default() }))));
         }
         for nh in [cap / 4 - 1, cap / 4, cap / 4 + 1, cap / 2] {
             let s: Vec<String> = (0..nh).map(|_| "f".to_string()).collect();
